@@ -1037,6 +1037,38 @@ func TestC20NestedSelectors(t *testing.T) {
 			}
 		}
 	}
+	// a map element selector whose key comes from a field: whatever the field holds, evaluation does not panic;
+	// a key value that cannot be a key of the map (a slice, a map: what JSON arrays and objects decode to)
+	// selects nothing, and nothing equals no string
+	for _, key := range []interface{}{"a", "zz", 7, nil, []int{1}, []interface{}{"a"}, map[string]interface{}{"a": 1}} {
+		v := &nsLabels{Labels: map[interface{}]string{"a": "x", 7: "seven"}, Key: key}
+		rec.Case(true, ev.HashString("map-key", fmt.Sprintf("%T %v", key, key)), "map-selector-key-from-field")
+		verdict := func() (s string) {
+			defer func() {
+				if r := recover(); r != nil {
+					s = fmt.Sprintf("PANIC %v", r)
+				}
+			}()
+			if err := binding.Validate(v); err != nil {
+				return "rejected"
+			}
+			return "accepted"
+		}()
+		want := "rejected"
+		if key == "a" {
+			want = "accepted"
+		}
+		if verdict != want {
+			msg := fmt.Sprintf("(Labels)$[$]=='x' with Key = %T %v: binding.Validate gives %s, want %s", key, key, verdict, want)
+			ev.Fail(prop, "nested-selectors", map[string]string{"key": fmt.Sprintf("%T %v", key, key)}, msg)
+			t.Errorf("%s", msg)
+		}
+	}
+}
+
+type nsLabels struct {
+	Labels map[interface{}]string
+	Key    interface{} `vd:"(Labels)$[$]=='x'"`
 }
 
 // ---------------------------------------------------------------------------
